@@ -8,9 +8,10 @@ class Net:
 
 
 class ConvNet(Net):
-    def __init__(self, kernel: int = 3, **kwargs):
+    def __init__(self, kernel: int = 3, stride: Optional[int] = None, **kwargs):
         super().__init__(**kwargs)
         self.kernel = kernel
+        self.stride = stride
 
 
 class MlpNet(Net):
@@ -26,13 +27,15 @@ class Opt:
 
 
 class Sgd(Opt):
-    def __init__(self, momentum: float = 0.0, **kwargs):
+    def __init__(self, momentum: float = 0.0, nesterov: Optional[bool] = None, **kwargs):
         super().__init__(**kwargs)
         self.momentum = momentum
+        self.nesterov = nesterov
 
 
 class Adam(Opt):
-    def __init__(self, betas: tuple = (0.9, 0.99), eps: float = 1e-8, **kwargs):
+    def __init__(self, betas: tuple = (0.9, 0.99), eps: float = 1e-8, decay: Optional[float] = None, **kwargs):
         super().__init__(**kwargs)
+        self.decay = decay
         self.betas = betas
         self.eps = eps
